@@ -112,7 +112,7 @@ def oracle(seed, tier):
                     bad("block of request %s differs: 2-D %r, 3-D %r" % (pr, x2[:4], x3[:4]))
         if len(samples) < 3:
             samples.append({"world": path, "point2d": p, "depth": d, "lifted": lines[i - 4].split()[2:5], "answer2d": out[i - 5][:120]})
-    return {"violations": viol[:20], "summary": {"cases": cases, "violations": len(viol), "nontrivial": nontriv}, "samples": samples}
+    return {"violations": trim_violations(viol, 20), "summary": {"cases": cases, "violations": len(viol), "nontrivial": nontriv}, "samples": samples}
 
 
 def replay(rp):
